@@ -401,8 +401,11 @@ func classifyVerify(err error) (string, string) {
 }
 
 func runAPI(a *Args, w *CaseWriter, rng *Rng, nAPI int, next func() (int64, bool)) error {
-	const per = 12 // 10 native cases + 2 cases with a verification plugin named by the signature
-	nChains := nAPI / per
+	// per chain: 10 native cases + 2 cases with a verification plugin named by the
+	// signature + nSys systematic list shapes (rotating through listShapes)
+	const nSys = 12
+	const per = 12 + nSys
+	nChains := nAPI / 12
 	ctx := context.Background()
 	for k := 0; k < nChains; k++ {
 		sub := rng.Fork(uint64(4_000_000 + k))
@@ -434,12 +437,25 @@ func runAPI(a *Args, w *CaseWriter, rng *Rng, nAPI int, next func() (int64, bool
 			if j == 2 {
 				kind = "ca-subject"
 			}
-			plugin := j >= 10
+			plugin := j >= 10 && j < 12
+			shape := ""
+			if j >= 12 {
+				shape = listShapes[(k*nSys+(j-12))%len(listShapes)]
+				kind = "list:" + shape
+			}
 			if plugin {
 				kind = Pick(cs, []string{"exact", "near-miss", "ca-subject", "subset", "superset", "wildcard", "unknown-prefix", "bad-dn"})
 			}
 			identities := genIdentities(cs, c, kind)
+			if shape != "" {
+				identities = genShape(cs, c, shape)
+			}
 			late := cs.Chance(1, 3)
+			if shape != "" {
+				// mostly placed after construction, so that the list reaches verifyX509TrustedIdentities
+				// whatever NewVerifier thinks of it (duplicates overlap)
+				late = cs.Chance(2, 3)
+			}
 			logLevel := cs.Chance(1, 5)
 			capTI, capRev, pluginOK := cs.Bool(), true, cs.Bool()
 			if capTI {
@@ -541,6 +557,9 @@ func runAPI(a *Args, w *CaseWriter, rng *Rng, nAPI int, next func() (int64, bool
 			w.Add(ids[j], term, cc, fmt.Sprintf("V|%v|%v|%q|%q|%v", late, logLevel, identities, c.subjects, cc.Plugin), nontriv)
 			w.Count("family", "verify")
 			w.Count("verify_identity_kind", kind)
+			if shape != "" {
+				w.Count("verify_list_shape_result", shape+" -> "+strings.SplitN(label, ":", 2)[0])
+			}
 			w.Count("verify_leaf_kind", c.kind)
 			w.Count("verify_chain_len", fmt.Sprint(len(c.subjects)))
 			w.Count("verify_result", strings.SplitN(label, ":", 2)[0])
@@ -568,4 +587,150 @@ func anyIdentityParses(ids []string) bool {
 		}
 	}
 	return false
+}
+
+// ---- systematic list shapes ----
+//
+// A shape is a space-separated list of tokens, one per identity:
+//   F    an identity with a foreign prefix (not x509.subject)
+//   Xm   x509.subject identity matching the leaf (all attributes / a subset)
+//   Xn   x509.subject identity that does not match (other organisation)
+//   Xnm  near miss (one value of the leaf changed slightly)
+//   Xca  the subject of an intermediate / root of the chain
+//   Xe0 XeM XeL  otherwise matching identity with an additional empty-valued attribute
+//        written first / in the middle / last
+//   Xd   the previous x509.subject identity again, written differently (duplicate)
+//   Xbad an x509.subject identity that is not a valid DN;  Nosep an identity without ':'
+// Foreign identities occur at every position (first, middle, last; one or several).
+var listShapes = []string{
+	"F Xn", "Xn F", "F F Xn", "F Xn F", "Xn F F", "F Xn Xn", "Xn F Xn", "Xn Xn F", "F Xn F Xn",
+	"F Xm", "Xm F", "F F Xm", "F Xm F", "F Xn Xm", "Xn F Xm", "Xn Xm F", "F Xm Xn", "Xm F Xn", "Xm Xn F", "F Xn F Xm",
+	"F Xnm", "Xnm F", "F Xnm F", "Xn F Xnm", "F Xnm Xm",
+	"F Xca", "Xca F", "F F Xca", "Xca F Xn", "F Xca Xm", "Xn Xca",
+	"Xn Xm", "Xm Xn", "Xn Xn Xm", "Xn Xnm Xca",
+	"F F", "F F F",
+	"Xe0", "XeM", "XeL", "F Xe0", "XeL F", "F XeM F", "Xe0 Xm", "Xm XeL", "Xn XeM", "XeM Xn", "F Xe0 Xm", "Xe0 F Xm", "Xn XeL F",
+	"Xm Xd", "Xn Xd", "F Xn Xd", "Xn F Xd", "Xn Xd F", "Xn Xd Xm", "Xm Xd Xn", "F Xm Xd",
+	"Xbad F", "F Xbad", "F Xbad Xm", "Xm Xbad", "Xn F Xbad",
+	"Nosep Xm", "Xm Nosep", "F Nosep Xm", "Xn Nosep",
+}
+
+var foreignIDs = []string{"acme.identity:release-team", "foo:bar", "x509.subjectX:C=US,ST=WA,O=x", ":x", "x509:C=US,ST=WA,O=Notary", "oidc.subject:https://issuer.example/alice"}
+
+func renderOrdered(rng *Rng, d []attr) string {
+	parts := freeRender(rng, d)
+	for i, x := range d {
+		if x.V == "" {
+			parts[i] = x.T + "="
+		}
+	}
+	return asciiize(joinParts(rng, parts))
+}
+
+func genShape(rng *Rng, c *apiChain, shape string) []string {
+	base := c.maps[0]
+	if base == nil {
+		base = c.intended
+	}
+	if base == nil {
+		base = map[string]string{"C": "US", "ST": "WA", "O": "Notary"}
+	}
+	keys := make([]string, 0, len(base))
+	for k := range base {
+		keys = append(keys, k)
+	}
+	sort.Strings(keys)
+	x := func(m map[string]string) string { return "x509.subject:" + renderIdentity(rng, m) }
+	matching := func() map[string]string {
+		m := map[string]string{}
+		full := rng.Bool()
+		for _, k := range keys {
+			if full || k == "C" || k == "ST" || k == "O" || rng.Chance(1, 3) {
+				m[k] = base[k]
+			}
+		}
+		return m
+	}
+	var out []string
+	var lastX map[string]string
+	nF, nN := 0, 0
+	for _, tok := range strings.Fields(shape) {
+		switch tok {
+		case "F":
+			out = append(out, foreignIDs[(nF+rng.Intn(2))%len(foreignIDs)])
+			nF += 2
+		case "Xm":
+			lastX = matching()
+			out = append(out, x(lastX))
+		case "Xn":
+			nN++
+			lastX = map[string]string{"C": "FR", "ST": "IDF", "O": fmt.Sprintf("Autre %d", nN), "CN": "someone else"}
+			out = append(out, x(lastX))
+		case "Xnm":
+			m := matching()
+			ks := make([]string, 0, len(m))
+			for k := range m {
+				ks = append(ks, k)
+			}
+			sort.Strings(ks)
+			k := Pick(rng, ks)
+			m[k] = nearMiss(rng, m[k])
+			lastX = m
+			out = append(out, x(m))
+		case "Xca":
+			j := len(c.maps) - 1
+			if j > 1 && rng.Bool() {
+				j = 1
+			}
+			m := map[string]string{"C": "DE", "ST": "BY", "O": "Verif CA", "CN": "nobody"}
+			if j >= 1 && c.maps[j] != nil {
+				m = cloneMap(c.maps[j])
+				if rng.Bool() {
+					delete(m, "CN")
+				}
+			}
+			lastX = m
+			out = append(out, x(m))
+		case "Xe0", "XeM", "XeL":
+			m := matching()
+			d := make([]attr, 0, len(m)+1)
+			for _, k := range keys {
+				if v, ok := m[k]; ok {
+					d = append(d, attr{k, v})
+				}
+			}
+			Shuffle(rng, d)
+			// an attribute type the leaf does not carry
+			et := "XQ"
+			for _, t := range []string{"CN", "OU", "L"} {
+				if _, ok := base[t]; !ok && rng.Bool() {
+					et = t
+					break
+				}
+			}
+			e := attr{et, ""}
+			switch tok {
+			case "Xe0":
+				d = append([]attr{e}, d...)
+			case "XeL":
+				d = append(d, e)
+			default:
+				mid := len(d) / 2
+				d = append(d[:mid:mid], append([]attr{e}, d[mid:]...)...)
+			}
+			m[et] = ""
+			lastX = m
+			out = append(out, "x509.subject:"+renderOrdered(rng, d))
+		case "Xd":
+			if lastX == nil {
+				lastX = matching()
+			}
+			out = append(out, x(lastX))
+		case "Xbad":
+			out = append(out, Pick(rng, []string{"x509.subject:CN=foo", "x509.subject:C=US,ST=WA,O=x,", "x509.subject:C=US,ST=WA,O=", "x509.subject:C=US+ST=WA,O=x", "x509.subject:C=US,ST=WA,O=x,C=US", "x509.subject:"}))
+		case "Nosep":
+			out = append(out, Pick(rng, []string{"garbage", "x509.subject", "x509.subject;C=US"}))
+		}
+	}
+	return out
 }
